@@ -912,6 +912,26 @@ func runC01(c *Ctx) {
 			c.ok(fn, "cancel paths", fn.Pos(), "%d handler completions: own interest bit tested, own interest removed first, at most once per path (%d contexts)", len(hcalls), len(contexts))
 		}
 	}
+	// R2d: an operation is parked on an object that is open: where a park function tests Closed(), the registration sits
+	// on the branch on which it is false (the other branch completes with an error)
+	for _, fn := range p.Funcs {
+		pk, tn := recvTypeName(fn)
+		if !c14Owners[pk+"."+tn] {
+			continue
+		}
+		eachInstr(fn, func(in ssa.Instruction) {
+			if e.regDir(in) == "" {
+				return
+			}
+			for _, l := range guardsOf(in.Block()) {
+				call, ok := l.Cond.(*ssa.Call)
+				if !ok || call.Call.StaticCallee() == nil || pinName(call.Call.StaticCallee()) != "Closed" {
+					continue
+				}
+				c.check(!l.Pos, fn, "parks when open", in.Pos(), "the registration is made when Closed() is false", "the operation is registered with the poller on the branch on which the object is closed (and refused with an error while it is open): every operation that has to wait fails at once, and a closed descriptor number is handed to epoll")
+			}
+		})
+	}
 	// R2c: every object that embeds a Slot gives it its descriptor: a slot whose Fd was never set registers descriptor 0
 	{
 		slotT := p.Named("internal", "Slot")
